@@ -93,6 +93,9 @@ def run(ids):
         if rc != 0:
             print(sid, "PATCH DOES NOT APPLY", out[-200:])
             continue
+        # evidence written while a seeded change is applied must never be left behind (or committed)
+        ev_dir = os.path.join(VERIF, "evidence")
+        saved = {f: open(os.path.join(ev_dir, f), "rb").read() for f in os.listdir(ev_dir)}
         try:
             results = {}
             for p in props:
@@ -104,6 +107,12 @@ def run(ids):
                 results[p] = {"exit": rc, "violations": viol[:3]}
         finally:
             sh("git -C %s checkout -- ." % REPO)
+            for f in os.listdir(ev_dir):
+                if f not in saved:
+                    os.remove(os.path.join(ev_dir, f))
+            for f, blob in saved.items():
+                with open(os.path.join(ev_dir, f), "wb") as fh:
+                    fh.write(blob)
         caught = [p for p, r in results.items() if isinstance(r, dict) and r["exit"] == 1 and r["violations"]]
         meta["detected_by"] = caught
         meta["last_run"] = results
